@@ -10,6 +10,7 @@ is spliced into its caller. Value ids and block ids of the callee are renumbered
 argument operands, every `ret` becomes a branch to the continuation block and feeds a phi that replaces the call's value."""
 import copy
 import glob
+from ..frontend import REPO
 import os
 import re
 
@@ -25,7 +26,7 @@ def keep_names(verif_dir):
 
 def _own(d):
     p = d.get("file", "")
-    return p.startswith("/repo/src/") and not any(x in p for x in ("/json/", "/zlib/", "/http-parser/", "/sha1/", "/tests/"))
+    return p.startswith(REPO + "/src/") and not any(x in p for x in ("/json/", "/zlib/", "/http-parser/", "/sha1/", "/tests/"))
 
 
 def _operands(ins):
